@@ -467,4 +467,13 @@ def c03_8(c: Ctx) -> None:
     check_child_registration_guards(c)
 
 
+@ob('C03.9', 'ORD/SHAPE', 'an ancestor that is still in flight stays findable for the completion walk as long as a completed event can be evicted instead: history eviction takes completed events '
+    'first, then started, then pending, each oldest-first (same obligation as C13.2) — a plain oldest-first eviction removes a long-running parent while newer completed events remain, and '
+    'its completion signal is then never set')
+def c03_9(c: Ctx) -> None:
+    from .c13 import c13_2
+
+    c13_2(c)
+
+
 OBLIGATIONS = ob.obs
